@@ -318,7 +318,8 @@ def prop_stage(grp, nmax, req, levels="sel", shards=8, big=6):
                  env={"GRP": grp, "PROP_N": nmax, "PROP_LEVELS": levels, "PROP_BIG": big}, required=req, shards=shards)
 
 
-C02_REQ = ["C02.ratio_rounding_tie", "C02.population_beyond_32_bits", "C02.domain", "C02.no_panic", "C02.shape", "C02.in01", "C02.level_echo", "C02.root_lo", "C02.root_hi",
+C02_REQ = ["C02.ratio_rounding_tie", "C02.population_beyond_32_bits", "C02.extreme_level.two", "C02.extreme_level.upper", "C02.extreme_level.lower",
+           "C02.population_beyond_53_bits.ok", "C02.population_beyond_53_bits.TooFewFailures", "C02.population_beyond_53_bits.TooFewSuccesses", "C02.domain", "C02.no_panic", "C02.shape", "C02.in01", "C02.level_echo", "C02.root_lo", "C02.root_hi",
            "C02.around_estimate", "C02.front_end", "C02.negative_z", "C02.zero_z", "C02.method.wilson", "C02.method.wald",
            "C02.kind.two", "C02.kind.upper", "C02.kind.lower"] + \
           ["C02.front_end." + f for f in ("ci", "ci_wilson_ratio", "ci_true", "ci_if", "stats_new", "stats_from_iter", "stats_extend", "stats_extend_if", "stats_add", "stats_mixed")] + \
@@ -332,7 +333,9 @@ def bigpop_stages(adopt_prop, adopt_quant):
     """populations beyond 2^32 through the count-based proportion entry points and the index-only quantile entry points"""
     bp = Stage("bigpop", ("Gen_Proportion", "Gen_Proportion.cfg"), ("Trace_Proportion", "Trace_Proportion.cfg"),
                env={"GRP": "big", "PROP_N": 0, "PROP_LEVELS": "sel", "PROP_BIG": 0}, shards=2,
-               required=["C02.population_beyond_32_bits", "C02.root_lo", "C02.root_hi", "C02.no_panic"])
+               required=["C02.population_beyond_32_bits", "C02.root_lo", "C02.root_hi", "C02.no_panic", "C02.extreme_level.two", "C02.extreme_level.upper",
+                         "C02.extreme_level.lower", "C02.population_beyond_53_bits.ok", "C02.population_beyond_53_bits.TooFewFailures",
+                         "C02.population_beyond_53_bits.TooFewSuccesses"])
     bp.adopt = set(adopt_prop)
     bq = Stage("bigpopq", ("Gen_Quantile", "Gen_Quantile.cfg"), ("Trace_Quantile", "Trace_Quantile.cfg"),
                env={"PART": "big"}, shards=1, required=["C03.population_beyond_32_bits", "C03.no_panic", "C03.in_range"])
@@ -395,7 +398,8 @@ def C03(tier, seed):
     own = own_stage("Q", "Trace_Quantile", ["C03.ranks", "C03.domain"])
     own.shards = 1
     return {
-        "stages": [ranks, perm, shuf, own, history_stage()],
+        # the Wilson bounds behind the ranks at confidence levels far outside the grid (the ranks themselves are judged against them)
+        "stages": [ranks, perm, shuf, own, history_stage()] + bigpop_stages(['C02.domain', 'C02.in01', 'C02.no_panic', 'C02.root_hi', 'C02.root_lo', 'C02.shape', 'C02.level_echo'], [])[:1],
         "exhaustive": True,
         "rule": "ranks: every n in 0..70 (400) x 35 dyadic quantiles (incl. 0, 1, outside [0,1]) + products at half-integers and their float "
                 "neighbours + NaN x 5 levels x 3 kinds through ci_indices, Stats::ci, Stats::index; data: EVERY permutation of 4 multiset shapes "
